@@ -603,6 +603,11 @@ class AssociationSocket:
             if not bytes_read:
                 return bytestream
 
+            # Data is arriving, so the connection isn't idle even if the
+            #   PDU being read takes longer than the network timeout to
+            #   arrive in full
+            self.assoc.dul._idle_timer.restart()
+
             bytestream.extend(bytes_read)
             nr_read += len(bytes_read)
 
